@@ -1,1 +1,13 @@
 import BddVerif.Props.C19
+#print axioms B.Props.C19.sched_irrelevant
+#print axioms B.Props.C19.pool_unchanged
+#print axioms B.Props.C19.deterministic
+#print axioms B.Props.C19.sched_irrelevant_pure
+#print axioms B.Props.C19.prefix_at_any_time
+#print axioms B.Props.C19.steps_commute
+#print axioms B.Props.C19.hidden_state_matters
+#print axioms B.Props.C19.leaky_not_transparent
+#print axioms B.Props.C19.shared_state_inventory_allowed
+#print axioms B.Props.C19.no_unsorted_hash_iteration
+#print axioms B.Props.C19.hash_iteration_sites_classified
+#print axioms B.Props.C19.allowed_only_unsafe_blocks
